@@ -7,7 +7,8 @@
     [run]: allocations (guarded by HasSpace, as the store does), Write/flush/abandon steps
     of any writer in any interleaving. *)
 From BBS Require Import Common.Sx Store.SectorWriter Store.SectorWriterProofs Store.SectorWriterSpec
-  Store.SectorWriterCommute Store.SectorWriterInv Store.SectorWriterAccum Store.SectorWriterCommute2 Run.R01S.
+  Store.SectorWriterCommute Store.SectorWriterInv Store.SectorWriterAccum Store.SectorWriterCommute2
+  Store.SectorWriterDevice Run.R01S.
 
 (** Byte ranges handed out by successive allocations are in order and pairwise disjoint,
     start at or above the initial cursor, end within the block; HasSpace is exactly "fits". *)
@@ -87,7 +88,7 @@ Theorem shared_sector_accumulates : forall c dev b0 tr s,
 Proof. exact shared_sector_accumulates_proof. Qed.
 Print Assumptions shared_sector_accumulates.
 
-Theorem shared_sector_writes_carry_image_partial :
+Theorem shared_sector_writes_carry_image :
   (forall c images w id, w_last w = Some id -> id < length images ->
      snd (flush c images w) =
      [(w_off w * length (img_data (fst (flush c images w)) id), img_data (fst (flush c images w)) id)]) /\
@@ -97,30 +98,11 @@ Theorem shared_sector_writes_carry_image_partial :
      exists rest, snd (write c images w p) =
        (w_off w * c_sector c, img_data (fst (fst (write c images w p))) id) :: rest).
 Proof. split; [exact flush_writes_image|exact write_first_writes_image]. Qed.
-Print Assumptions shared_sector_writes_carry_image_partial.
+Print Assumptions shared_sector_writes_carry_image.
 
-(* NOT YET PROVED (full statement kept; its ingredients are proved above and the monitor of
-   Run/R01S.v (clause 1) checks it on every implementation run, at every step):
-
-   Theorem completed_writer_data_on_device : forall c dev b0 tr s k t,
-     1 <= c_sector c -> b_shared b0 = None ->
-     (c_base c + c_spb c) * c_sector c <= length dev ->
-     run c (init_state dev b0) tr = Some s ->
-     nth_error (st_threads s) k = Some t -> t_status t = Flushed ->
-     forall i, i < t_size t ->
-       nth (c_base c * c_sector c + t_start t + i) (st_dev s) 0%Z = nth i (t_data t) 0%Z.
-   (Since [tr] is arbitrary this includes every continuation by other writers, abandoned ones
-   and ones that start later in the same sector.)
-
-   Proved towards it: the ranges are disjoint ([allocations_disjoint]); every device write of
-   another writer lies in that writer's own sectors ([writer_writes_only_own_sectors]), its
-   private part tiles its own byte range (Store/SectorWriterSpec.v: [write_rest_spec],
-   [contig_apply]); the only writes that can touch a sector of a completed writer k from outside
-   are writes of a shared image, and the image holds all of k's bytes of that sector
-   ([shared_sector_accumulates] with [copied] true for every byte of a flushed writer that lies
-   in a shared sector).  Missing: the induction that carries "device = data" for completed
-   sectors through these writes. *)
-Theorem completed_writer_data_in_images_partial : forall c dev b0 tr s id k t pos,
+(** Ingredient: every byte of a flushed writer that lies in its shared first sector or in its
+    last sector is in the image of that sector, in every later state. *)
+Theorem completed_writer_data_in_images : forall c dev b0 tr s id k t pos,
   1 <= c_sector c -> b_shared b0 = None ->
   run c (init_state dev b0) tr = Some s ->
   nth_error (st_threads s) k = Some t -> t_status t = Flushed ->
@@ -130,7 +112,47 @@ Theorem completed_writer_data_in_images_partial : forall c dev b0 tr s id k t po
    pos / c_sector c = (t_start t + t_size t) / c_sector c) ->
   nth (pos mod c_sector c) (img_data (st_images s) id) 0%Z = nth (pos - t_start t) (t_data t) 0%Z.
 Proof. exact completed_in_images_full. Qed.
-Print Assumptions completed_writer_data_in_images_partial.
+Print Assumptions completed_writer_data_in_images.
+
+(** The property itself.  Once writer k has been given all [t_size] bytes of its allocation
+    and has flushed (the guard of [EFlush]), the device bytes of its byte range equal its data.
+    [tr] is an arbitrary accepted event list, so the state [s] is any state after the flush:
+    the statement includes every continuation by other writers — active ones, abandoned ones,
+    and ones allocated later that start in the same sector.  (The device must contain the
+    block: [WriteAt] is modelled for in-range writes only.) *)
+Theorem completed_writer_data_on_device : forall c dev b0 tr s k t,
+  1 <= c_sector c -> b_shared b0 = None ->
+  (c_base c + c_spb c) * c_sector c <= length dev ->
+  run c (init_state dev b0) tr = Some s ->
+  nth_error (st_threads s) k = Some t -> t_status t = Flushed ->
+  forall i, i < t_size t ->
+    nth (c_base c * c_sector c + t_start t + i) (st_dev s) 0%Z = nth i (t_data t) 0%Z.
+Proof. exact completed_writer_data_on_device_proof. Qed.
+Print Assumptions completed_writer_data_on_device.
+
+(** The continuation made explicit: from any reachable state in which writer k is flushed, any
+    further event list leaves writer k's record untouched and every device byte of its range
+    unchanged (and equal to its data). *)
+Theorem completed_writer_data_stays_on_device : forall c dev b0 tr s k t tr2 s2,
+  1 <= c_sector c -> b_shared b0 = None ->
+  (c_base c + c_spb c) * c_sector c <= length dev ->
+  run c (init_state dev b0) tr = Some s ->
+  nth_error (st_threads s) k = Some t -> t_status t = Flushed ->
+  run c s tr2 = Some s2 ->
+  nth_error (st_threads s2) k = Some t /\
+  forall i, i < t_size t ->
+    nth (c_base c * c_sector c + t_start t + i) (st_dev s2) 0%Z = nth i (t_data t) 0%Z /\
+    nth (c_base c * c_sector c + t_start t + i) (st_dev s2) 0%Z =
+    nth (c_base c * c_sector c + t_start t + i) (st_dev s) 0%Z.
+Proof. exact completed_writer_data_stays_on_device_proof. Qed.
+Print Assumptions completed_writer_data_stays_on_device.
+
+(** a flushed writer has been given all its bytes (so "its data" above is all of it) *)
+Theorem flushed_writer_has_all_bytes : forall c dev b0 tr s k t,
+  run c (init_state dev b0) tr = Some s ->
+  nth_error (st_threads s) k = Some t -> t_status t = Flushed -> length (t_data t) = t_size t.
+Proof. exact flushed_writer_has_all_bytes_proof. Qed.
+Print Assumptions flushed_writer_has_all_bytes.
 
 (** Non-vacuity: two writers sharing a sector (sector size 4), interleaved, both complete;
     three writers in one sector, the middle one abandoned; a restored block. *)
@@ -155,4 +177,14 @@ Example restored_example :
   option_map (fun s => (st_dev s, map t_start (st_threads s)))
     (run c (init_state (repeat 9%Z 12) (new_block_at c 5)) [EAlloc 2; EWrite 0 [1;2]%Z; EFlush 0])
   = Some ([9;9;9;9; 9;9;9;9; 1;2;0;0]%Z, [8]).
+Proof. vm_compute. reflexivity. Qed.
+
+(** a writer allocated AFTER writer 0 has flushed starts in writer 0's last sector and
+    completes that sector: writer 0's bytes are re-written from the shared image *)
+Example late_neighbour_example :
+  let c := {| c_sector := 4; c_spb := 2; c_base := 0 |} in
+  option_map st_dev
+    (run c (init_state (repeat 9%Z 8) new_block)
+       [EAlloc 3; EWrite 0 [1;2;3]%Z; EFlush 0; EAlloc 3; EWrite 1 [4;5]%Z; EWrite 1 [6]%Z; EFlush 1])
+  = Some [1;2;3;4;5;6;0;0]%Z.
 Proof. vm_compute. reflexivity. Qed.
